@@ -495,3 +495,8 @@ NOT_PROVED = NOT_PROVED + ['rounding of the extrapolation branch (oracle only); 
 # into lean/Compute/Generated/SrcC16.lean and proved equal to the hand model in Props/SrcTieC16.lean)
 from . import srctie
 srctie.wire(globals(), 'C16')
+
+# --- deep theorems (Rounding5: float-level bounds in the standard model, wired by the lead)
+PROOF_MODULES = PROOF_MODULES + [m for m in ['Compute.Lemmas.Rounding5', 'Compute.Props.Rounding5'] if m not in PROOF_MODULES]
+REQUIRED_THEOREMS = REQUIRED_THEOREMS + ['Cv.Rounding5.extrapolate_left_error', 'Cv.Rounding5.extrapolate_right_error', 'Cv.Rounding5.extrapolate_cancellation']
+NOT_PROVED = [('rounding of all branches is bounded by theorem in the standard model: inside the range within gamma_8 max|y| and exact at knots (Props/Rounding2); extrapolation within gamma_6 (|slope (t - x_k)| + |y_k|) of the line (Props/Rounding5), and no bound relative to the exact value exists there (extrapolate_cancellation)' if str(x).startswith('rounding of the extrapolation branch') else x) for x in NOT_PROVED]
